@@ -94,6 +94,14 @@ def server_cases(tier):
         for val in VALUES.get(n, []):
             cases.append(("set:%s=%r" % (n, val), build_request(REQUEST_LINES[0],
                                                                 BASE[:i] + [(n, val)] + BASE[i + 1:])))
+    # values with characters that are special to text templating (str.format braces, % directives):
+    # whatever is echoed into logs or error pages must not be interpreted
+    for i, (n, v) in enumerate(BASE):
+        for val in (b"{}", b"{0}{x}", b"%s%d{"):
+            cases.append(("set:%s=%r" % (n, val), build_request(REQUEST_LINES[0],
+                                                                BASE[:i] + [(n, val)] + BASE[i + 1:])))
+    cases.append(("line:braces", build_request(b"GET /ws#{frag}{0} HTTP/1.1", BASE)))
+    cases.append(("line:method-braces", build_request(b"{0} / HTTP/1.1", BASE)))
     for ln in REQUEST_LINES[1:]:
         cases.append(("line:%r" % ln, build_request(ln, BASE)))
         # without Upgrade header: the web status / redirect page path
